@@ -12,6 +12,7 @@ from .common import (Harness, canon_loc, cn, contains_parts, in_parts, is_raised
                      parts_len, wf_span)
 
 CP = "antismash.common.hmm_rule_parser.cluster_prediction:"
+RPM = "antismash.common.hmm_rule_parser.rule_parser:"
 
 
 def mkrule(name, cutoff, neighbourhood, superiors=None, profile="a", extenders=None):
@@ -149,4 +150,69 @@ class Chains(Harness):
         return cl
 
 
-HARNESSES = [Chains()]
+class SuperiorsExtenders(Harness):
+    pid, name = "C03", "superiors_extenders"
+    functions = [CP + "find_protoclusters", CP + "apply_extenders", CP + "remove_redundant_protoclusters",
+                 RPM + "DetectionRule.can_extend_to", CP + "merge_over_origin"]
+    bound = ("two rules r1 (with EXTENDERS x) and r2 SUPERIORS r1; three mutually disjoint genes in every left-to-right order: "
+             "one anchoring r1, one anchoring r2, one carrying only the extender profile; symbolic coordinates, cutoffs and record "
+             "length; linear record")
+    outside = "overlapping/nested genes in this harness, circular records, chains of several extender genes, more than one superior"
+
+    def variants(self, tier):
+        import itertools
+        return [{"order": list(p)} for p in itertools.permutations(["A", "B", "X"])]
+
+    def vars(self, var):
+        d = {"n": "int", "c1": "int", "c2": "int", "nb": "int"}
+        for i in range(3):
+            d.update(shape_vars("g%d" % i, "s"))
+        return d
+
+    def pre(self, var, v):
+        n = v["n"]
+        return L.And([shape_pre("g%d" % i, "s", v, n) for i in range(3)],
+                     v["g0e0"] <= v["g1s0"], v["g1e0"] <= v["g2s0"],
+                     v["c1"] >= 1, v["c2"] >= 1, v["nb"] >= 0, v["c1"] <= 3 * n, v["c2"] <= 3 * n, v["nb"] <= 3 * n)
+
+    def run(self, var, v):
+        from antismash.common.hmm_rule_parser.structures import ProfileHit
+        rec = mkrecord(v["n"], False)
+        role = {r: "g%d" % i for i, r in enumerate(var["order"])}
+        for i in range(3):
+            rec.add_cds_feature(DummyCDS(location=build("g%d" % i, "s", v), locus_tag="g%d" % i, translation="A"))
+        r1 = rp.DetectionRule("r1", "cat", v["c1"], v["nb"], rp.SingleCondition(False, "a"),
+                              extenders=rp.SingleCondition(False, "x"))
+        r2 = rp.DetectionRule("r2", "cat", v["c2"], v["nb"], rp.SingleCondition(False, "b"), superiors=["r1"])
+        hits = {role["A"]: [ProfileHit(role["A"], "a", 50., 1e-5)], role["B"]: [ProfileHit(role["B"], "b", 50., 1e-5)],
+                role["X"]: [ProfileHit(role["X"], "x", 50., 1e-5)]}
+        doms = defaultdict(lambda: defaultdict(set))
+        protos = cp.find_protoclusters(rec, {"r1": {role["A"]}, "r2": {role["B"]}}, {"r1": r1, "r2": r2}, hits, doms)
+        return [{"product": p.product, "core": canon_loc(p.core_location), "extent": canon_loc(p.location)} for p in protos]
+
+    def post(self, var, v, out):
+        if is_raised(out):
+            return [("no_raise", False)]
+        idx = {r: i for i, r in enumerate(var["order"])}
+        g = [model_parts("g%d" % i, "s", v)[0] for i in range(3)]
+        ga, gb, gx = g[idx["A"]], g[idx["B"]], g[idx["X"]]
+        dist_ax = L.If(gx[0] >= ga[1], gx[0] - ga[1], ga[0] - gx[1])
+        admitted = dist_ax <= v["c1"]       # the extender walk stops at a gene further than the cutoff
+        lo = L.If(admitted, L.Min(ga[0], gx[0]), ga[0])
+        hi = L.If(admitted, L.Max(ga[1], gx[1]), ga[1])
+        r1s = [p for p in out if p["product"] == "r1"]
+        r2s = [p for p in out if p["product"] == "r2"]
+        cl = [("superior_rule_kept_once", len(r1s) == 1)]
+        if len(r1s) == 1:
+            core = r1s[0]["core"]
+            cl.append(("core_is_group_plus_admitted_extender", L.And(len(core) == 1, core[0][0] == lo, core[0][1] == hi)))
+        covered = L.And(lo <= gb[0], gb[1] <= hi)
+        cl.append(("inferior_dropped_iff_superior_covers_its_core_genes", L.Iff(len(r2s) == 0, covered)))
+        cl.append(("at_most_one_inferior", len(r2s) <= 1))
+        if len(r2s) == 1:
+            core = r2s[0]["core"]
+            cl.append(("inferior_core_is_its_anchor", L.And(len(core) == 1, core[0][0] == gb[0], core[0][1] == gb[1])))
+        return cl
+
+
+HARNESSES = [Chains(), SuperiorsExtenders()]
